@@ -13,7 +13,9 @@ COMP = ["gemm_a", "gemm_b", "void elementwise<4>(int)", "relu_kernel", "softmax_
         "nccl_allreduce_pack_half2", "nccl:all_reduce", "my_ncclKernel_wrapper"]
 COMM = ["ncclKernel_AllReduce_RING_LL_Sum_float", "ncclDevKernel_AllGather_RING_LL(ncclDevComm*)", "ncclKernel_ReduceScatter"]
 MEM = ["Memcpy HtoD (Pinned -> Device)", "Memcpy DtoH (Device -> Pinned)", "Memcpy DtoD (Device -> Device)", "Memset (Device)", "dma_copy"]
-OTHER = ["fooSync", "barMemcpy", "Stream Sync", "nccl_prologue_Sync"]
+OTHER = ["fooSync", "barMemcpy", "Stream Sync", "nccl_prologue_Sync",
+         # the words that decide the type sit inside template / call arguments only (the full name is what is classified)
+         "void cutlass::Kernel<cutlass::arch::SyncPolicy<8>>(Params)", "void at::native::apply<MemcpyFunctor<float>>(int, float*)"]
 
 
 def gen_rank(rnd: random.Random, rank: int, p: Dict[str, Any]) -> Dict[str, Any]:
